@@ -140,6 +140,10 @@ func vC04Project(tree RevTree) []vC04Row {
 		if info != nil && info.ID != id {
 			rid = id + "!" + info.ID // key and ID disagree: unprojectable on purpose
 		}
+		if info == nil {
+			rows = append(rows, vC04Row{id: rid + "!nil"})
+			continue
+		}
 		rows = append(rows, vC04Row{id: rid, parent: info.Parent, del: info.Deleted})
 	}
 	sort.Slice(rows, func(a, b int) bool { return rows[a].id < rows[b].id })
@@ -449,16 +453,12 @@ func vC04DBLevel(t *testing.T, run *vC04Run, b vC04Beh, bi int, d *vC04DBs, useD
 				history[k] = run.idOf(m)
 			}
 			ev.ch = history
-			tag := run.bodyTag(history[0])
-			if tag == "" || strings.HasSuffix(tag, ":put") || run.tagOf[history[0]] == "" {
-				tag = run.bodyTag(history[0])
-			}
 			body := Body{}
-			if t0, isDeleteDoc := run.tagOf[history[0]]; !(isDeleteDoc && t0 == "-") {
-				body["r"] = tag
-				ev.b = history[0]
-			} else {
+			if run.tagOf[history[0]] == "-" { // this revision was made by DeleteDoc: it carries an empty body
 				ev.b = ""
+			} else {
+				body["r"] = run.bodyTag(history[0])
+				ev.b = history[0]
 			}
 			if st.Del {
 				body[BodyDeleted] = true
